@@ -55,6 +55,18 @@ def _has_call(e):
     return any(isinstance(n, (ast.Call, ast.Await, ast.Yield, ast.YieldFrom, ast.NamedExpr)) for n in ast.walk(e))
 
 
+class _FoldLookup(ast.NodeTransformer):
+    """{k1: v1, ...}[k] with constant keys and constant k -> the selected value"""
+
+    def visit_Subscript(self, n):
+        self.generic_visit(n)
+        if isinstance(n.value, ast.Dict) and isinstance(n.slice, ast.Constant) and all(isinstance(k, ast.Constant) for k in n.value.keys):
+            for k, val in zip(n.value.keys, n.value.values):
+                if k.value == n.slice.value and type(k.value) is type(n.slice.value):
+                    return ast.copy_location(copy.deepcopy(val), n)
+        return n
+
+
 class _Subst(ast.NodeTransformer):
     def __init__(self, name, expr):
         self.name, self.expr, self.n = name, expr, 0
@@ -258,7 +270,57 @@ class Normalise(ast.NodeTransformer):
             return ast.copy_location(ast.AugAssign(target=s.target, op=s.op, value=e), s)
         return None
 
+    def _const_arms(self, s):
+        """[(If node, arm list attr)] when every arm of the if/elif/else chain `s` is the single statement `v = <constant>`
+        for one name v (and the chain ends with an else); -> (v, [arm lists]) or None"""
+        arms = []
+        name = [None]
+
+        def walk(n):
+            for arm in (n.body, n.orelse):
+                if len(arm) == 1 and isinstance(arm[0], ast.If) and arm is n.orelse:
+                    if not walk(arm[0]):
+                        return False
+                elif len(arm) == 1 and isinstance(arm[0], ast.Assign) and len(arm[0].targets) == 1 and isinstance(arm[0].targets[0], ast.Name) \
+                        and isinstance(arm[0].value, ast.Constant) and name[0] in (None, arm[0].targets[0].id):
+                    name[0] = arm[0].targets[0].id
+                    arms.append(arm)
+                else:
+                    return False
+            return True
+        if isinstance(s, ast.If) and s.orelse and walk(s) and len(arms) >= 2:
+            return name[0], arms
+        return None
+
+    def _sink_tail(self, stmts):
+        """`if c1: v = K1 elif c2: v = K2 else: v = K3` followed by a short tail that only reads v: the tail is moved into
+        every arm with v replaced by the arm's constant (so each case is seen on its own path)"""
+        for i, s in enumerate(stmts):
+            ca = self._const_arms(s)
+            tail = stmts[i + 1:]
+            if ca is None or not tail or len(tail) > 4:
+                continue
+            v, arms = ca
+            if any(isinstance(x, ast.Name) and x.id == v and isinstance(x.ctx, (ast.Store, ast.Del)) for t in tail for x in ast.walk(t)):
+                continue
+            if any(isinstance(x, (ast.FunctionDef, ast.Lambda, ast.For, ast.While, ast.Try, ast.With)) for t in tail for x in ast.walk(t)):
+                continue
+            if not _terminates(tail):
+                continue  # the value of v must not be needed after the tail (the tail ends the block with return / raise)
+            if not any(isinstance(x, ast.Subscript) and isinstance(x.value, ast.Dict) and isinstance(x.slice, ast.Name) and x.slice.id == v
+                       for t in tail for x in ast.walk(t)):
+                continue  # only worth it when the constant selects an entry of a literal table
+            for arm in arms:
+                k = arm[0].value
+                new_tail = [_FoldLookup().visit(_Subst(v, k).visit(copy.deepcopy(t))) for t in tail]
+                arm[:] = new_tail
+            return self._block(stmts[:i + 1])
+        return None
+
     def _block(self, stmts):
+        sunk = self._sink_tail(stmts) if not getattr(self, "_sinking", False) else None
+        if sunk is not None:
+            return sunk
         out = []
         for s in stmts:
             if out:
